@@ -389,10 +389,14 @@ func (w *wsByteReader) Read(p []byte) (int, error) {
 	return n, nil
 }
 
-func wsTunnelExchange(addr, peer string, els []elem, r *rand.Rand) (out liveOutcome) {
+func wsTunnelExchange(addr, peer string, els []elem, r *rand.Rand, perElement bool) (out liveOutcome) {
 	direct, _ := serialise(els)
 	out.stream = direct
 	out.partition = livePartition(r, direct)
+	if perElement {
+		// what the library's own WebSocket client does: one RTSP message per WebSocket message
+		out.partition = &partition{Mode: "message-per-element", cuts: direct.ends}
+	}
 	chunks := chunksOf(direct.data, out.partition)
 	out.chunks = len(chunks)
 	// the handshake is completed by Dial before any further byte is sent (an upgrade request
@@ -555,10 +559,25 @@ func runLiveRaw(addr string, st *liveState, id caseID, carrier string) {
 	for attempt := 0; attempt < 5; attempt++ {
 		r := run.Rand(id.Role, id.Idx)
 		els = genLiveRequests(r, peer, 8+r.Intn(40))
+		// every third session: one request with a body of exactly the maximum size, one of the
+		// maximum minus 16, and (WebSocket) one RTSP message per WebSocket message
+		perElement := id.Idx%3 == 0
+		if perElement {
+			for k, sz := range []int{limBody, limBody - 16} {
+				e := &els[(1+k*3)%len(els)]
+				e.Method = "SET_PARAMETER"
+				if e.URL == "" {
+					e.URL = genURL(r, false)
+				}
+				e.Body = vlib.RandBytes(r, sz)
+				e.Header["Content-Type"] = []string{"text/parameters"}
+				delete(e.Header, "Content-Length")
+			}
+		}
 		if carrier == "tunnel-http" {
 			out = httpTunnelExchange(addr, peer, els, r)
 		} else {
-			out = wsTunnelExchange(addr, peer, els, r)
+			out = wsTunnelExchange(addr, peer, els, r, perElement)
 		}
 		if out.setupErr != nil {
 			st.take(peer)
